@@ -1,114 +1,12 @@
-"""Regions of the known findings of property C12 (see KNOWN_FINDINGS.txt).
+"""Regions of the known findings of property C12.
 
-`case` is what harness/c12.py attaches to a failing step: shape, fill, the history up to and including
-the failing step (`ops`), `form` of the failing access, `lean_excluded` (the Lean driver evaluated
-`Spec.Excluded shape op` on the failing assignment: the decidable region predicate the `_partial`
-theorems exclude), `tainted` (the dict holds a key outside the shape).  A failing assignment is attributed
-to a finding only if the Python region below AND the Lean predicate agree and the observed symptom is the
-one the finding describes; anything else stays a VIOLATION.
+There are none: the seven defects this check found in DOK item assignment (negative step with start 0,
+tuples of ints on 1-d arrays, the empty tuple, un-normalised / empty index lists, one-element values
+for index lists, boolean masks) are repaired in /repo (KNOWN_FINDINGS.txt `fixed:` lines); their
+witnesses stay in the corpus of harness/c12.py and must pass.  Every leg-C failure is a VIOLATION.
 """
 from __future__ import annotations
 
 
-def _normalize_slice(start, stop, step, dim):
-    """replace_none -> posify_index -> clip_slice of sparse/_slicing.py, transcribed"""
-    if step is None:
-        step = 1
-    if step > 0:
-        start = 0 if start is None else start
-        stop = dim if stop is None else stop
-    else:
-        start = dim - 1 if start is None else start
-        stop = -dim - 1 if stop is None else stop
-    if start < 0:
-        start += dim
-    if stop < 0:
-        stop += dim
-    if step > 0:
-        start, stop = max(start, 0), min(stop, dim)
-        if start > stop:
-            start = stop
-    else:
-        start, stop = min(start, dim - 1), max(stop, -1)
-        if start < stop:
-            start = stop
-    return start, stop, step
-
-
-def neg_step_start0(shape, key):
-    """Excluded_negStepStart0: some slice of the key has a negative step and a normalised start of 0 on an axis of extent > 1"""
-    for p, dim in zip(key, shape):
-        if isinstance(p, list) and p[2] != 0:
-            s = _normalize_slice(*p, dim)
-            if s[2] < 0 and s[0] == 0 and dim > 1:
-                return True
-    return False
-
-
-def raw_index(shape, idxs):
-    """Excluded_fancyRawIndex: some entry of an index list outside [0, dim)"""
-    return any(not (0 <= i < d) for l, d in zip(idxs, shape) for i in l)
-
-
-def tuple_route(shape, op):
-    """on a 1-d array a tuple of integers is routed to _fancy_setitem; returns the integers or None"""
-    if op["form"] != "set" or len(shape) != 1 or op.get("ell"):
-        return None   # (an Ellipsis in the key keeps it off that route)
-    if op.get("bare") and len(op["key"]) == 1:
-        return None
-    if op["key"] and all(isinstance(p, int) for p in op["key"]):
-        return list(op["key"])
-    return None
-
-
-def stores_raw(shape, op):
-    """the assignment reaches _fancy_setitem with an entry outside [0, dim): finding id, else None"""
-    if op["form"] == "fancy":
-        return "F-dok-fancy-raw-index" if raw_index(shape, op["idxs"]) else None
-    t = tuple_route(shape, op)
-    if t is not None and (len(t) != 1 or raw_index(shape, [t])):
-        return "F-dok-1d-int-tuple"
-    return None
-
-
 def classify(name, case, msg):
-    ops = case.get("ops") or []
-    if not ops:
-        return None
-    op = ops[-1]
-    shape = case["shape"]
-    form = case.get("form")
-    lean = case.get("lean_excluded")
-    accepted = "numpy accepts the assignment" in msg          # DOK raised, NumPy did not
-    # an earlier assignment of this history left a key outside the shape in the dict
-    stale = next((f for f in (stores_raw(shape, o) for o in ops) if f), None)
-    if name.startswith("assign:"):
-        if form == "mask" and lean and accepted and ("raised IndexError" in msg or "raised ValueError" in msg):
-            return "F-dok-boolmask"
-        if form == "fancy" and lean:
-            if raw_index(shape, op["idxs"]) and not accepted:
-                return "F-dok-fancy-raw-index"
-            if len(op["idxs"][0]) == 0 and accepted and "raised IndexError" in msg:
-                return "F-dok-fancy-empty"
-            if op["vshape"] == [1] and len(op["idxs"][0]) != 1 and accepted and "raised ValueError" in msg:
-                return "F-dok-fancy-bcast1"
-        if form == "set" and lean:
-            if op["key"] == [] and not op.get("ell") and accepted and (
-                    "raised IndexError" in msg or "raised NotImplementedError" in msg):
-                return "F-dok-empty-tuple-key"
-            t = tuple_route(shape, op)
-            if t is not None and not accepted and (len(t) != 1 or raw_index(shape, [t])):
-                # d[-1,] / d[7,] stored as given (values or nnz differ, todense fails); d[1, 2] accepted
-                return "F-dok-1d-int-tuple"
-            if neg_step_start0(shape, op["key"]) and (
-                    msg.startswith("values differ") or (accepted and "raised IndexError" in msg)):
-                # too many (or the wrong) elements are visited; with an array value that shows as an IndexError
-                # from value[v_idx] after the first elements have been stored
-                return "F-dok-negstep-start0"
-        if case.get("tainted") and stale:
-            return stale
-        return None
-    if name.startswith("read:"):
-        if case.get("tainted") and stale:
-            return stale
     return None
